@@ -80,6 +80,8 @@ pub struct Profile {
     pub storm: bool,
     pub w: [u32; NCLASS],
     pub bulk_max: usize,
+    /// generate mem::forget of drain / iter_mut guards (off under leak detectors)
+    pub allow_leak: bool,
 }
 
 fn wv(pairs: &[(Class, u32)]) -> [u32; NCLASS] {
@@ -181,6 +183,7 @@ pub fn profile(name: &str, rng: &mut Rng) -> Profile {
                 storm: rng.chance(1, 3),
                 w: core_weights(),
                 bulk_max: 8,
+                allow_leak: true,
             }
         }
         "churn-single" => {
@@ -197,6 +200,7 @@ pub fn profile(name: &str, rng: &mut Rng) -> Profile {
                 storm: rng.chance(1, 2),
                 w: single_weights(),
                 bulk_max: 8,
+                allow_leak: true,
             }
         }
         "growth" => {
@@ -212,6 +216,7 @@ pub fn profile(name: &str, rng: &mut Rng) -> Profile {
                 storm: rng.chance(1, 3),
                 w: core_weights(),
                 bulk_max: 120,
+                allow_leak: true,
             }
         }
         "growth-ties" => {
@@ -227,6 +232,7 @@ pub fn profile(name: &str, rng: &mut Rng) -> Profile {
                 storm: rng.chance(1, 2),
                 w: core_weights(),
                 bulk_max: 60,
+                allow_leak: true,
             }
         }
         "storm" => {
@@ -242,6 +248,7 @@ pub fn profile(name: &str, rng: &mut Rng) -> Profile {
                 storm: true,
                 w: single_weights(),
                 bulk_max: 16,
+                allow_leak: true,
             }
         }
         "bulk" => {
@@ -257,6 +264,7 @@ pub fn profile(name: &str, rng: &mut Rng) -> Profile {
                 storm: false,
                 w: bulk_weights(),
                 bulk_max: 300,
+                allow_leak: true,
             }
         }
         "bulk-small" => {
@@ -272,6 +280,81 @@ pub fn profile(name: &str, rng: &mut Rng) -> Profile {
                 storm: false,
                 w: bulk_weights(),
                 bulk_max: 10,
+                allow_leak: true,
+            }
+        }
+        // targeted mixes: a base of single-element operations plus one family made dominant
+        "sorted" | "mutate" | "incdec" | "drainclear" | "payload" | "capacity" | "convert" => {
+            let small = rng.chance(1, 2);
+            let universe = if small { 3 + rng.below(7) as u32 } else { 12 + rng.below(150) as u32 };
+            let mut w = single_weights();
+            let mut set = |c: Class, x: u32| w[CLASSES.iter().position(|k| *k == c).unwrap()] = x;
+            let (pname, bulk_max): (&'static str, usize) = match name {
+                "sorted" => {
+                    set(Sorted, 25);
+                    set(SortedItems, 25);
+                    set(IntoChecks, 6);
+                    set(Extend, 4);
+                    set(RetainMut, 4);
+                    ("sorted", 40)
+                }
+                "mutate" => {
+                    set(PopIf, 40);
+                    set(IterMut, 30);
+                    set(Retain, 20);
+                    set(RetainMut, 30);
+                    set(PeekMut, 8);
+                    ("mutate", 40)
+                }
+                "incdec" => {
+                    set(PushIncDec, 120);
+                    ("incdec", 10)
+                }
+                "drainclear" => {
+                    set(Drain, 25);
+                    set(Clear, 10);
+                    set(Extend, 6);
+                    set(Append, 4);
+                    set(Push, 60);
+                    ("drainclear", 30)
+                }
+                "payload" => {
+                    set(PeekMut, 25);
+                    set(Lookup, 30);
+                    set(IterMut, 12);
+                    set(PopIf, 16);
+                    set(Convert, 3);
+                    set(RetainMut, 5);
+                    set(CloneSwap, 2);
+                    ("payload", 10)
+                }
+                "capacity" => {
+                    set(Capacity, 60);
+                    set(Extend, 5);
+                    set(Drain, 3);
+                    ("capacity", 60)
+                }
+                _ => {
+                    set(Convert, 30);
+                    set(CloneSwap, 10);
+                    set(Serde, 10);
+                    set(Append, 10);
+                    set(Extend, 10);
+                    ("convert", 60)
+                }
+            };
+            Profile {
+                name: pname,
+                universe,
+                ord_lo: 0,
+                ord_hi: if rng.chance(1, 2) { 1 + rng.below(5) as i64 } else { 100_000 },
+                extreme_ords: rng.chance(1, 6),
+                steps: 60 + rng.below(140),
+                target: (universe as usize * 3) / 4,
+                storm: rng.chance(1, 2),
+                w,
+                bulk_max,
+                allow_leak: true,
             }
         }
         other => panic!("unknown profile {}", other),
@@ -454,6 +537,18 @@ impl<'a> Gen<'a> {
     }
 
     pub fn op<Q: QueueApi>(&mut self, m: &Model, s: &Snap, suspended: bool) -> Op {
+        let op = self.op_raw::<Q>(m, s, suspended);
+        if self.prof.allow_leak {
+            return op;
+        }
+        match op {
+            Op::IterMut { n, writes, touch, via_ref, .. } => Op::IterMut { n, writes, touch, leak: false, via_ref },
+            Op::Drain { front, back, .. } => Op::Drain { front, back, leak: false },
+            o => o,
+        }
+    }
+
+    fn op_raw<Q: QueueApi>(&mut self, m: &Model, s: &Snap, suspended: bool) -> Op {
         let mut w = self.prof.w;
         let idx = |c: Class| CLASSES.iter().position(|k| *k == c).unwrap();
         // steer the size
